@@ -332,3 +332,157 @@ Example C07_ex_sizes :
   node_size Left (mkPad (2 # 1) (2 # 1) (3 # 1) (2 # 1)) (60 # 1) None = ((13 # 1) + (3 # 1) + (2 # 1), (60 # 1) + (2 # 1) + (2 # 1)) /\
   node_size Up (mkPad (2 # 1) (2 # 1) (3 # 1) (2 # 1)) (50 # 1) (Some [97%N]) = ((50 # 1) + (2 # 1) + (2 # 1), (13 # 1) + (3 # 1) + (2 # 1)).
 Proof. vm_compute. repeat split. Qed.
+
+(* ======================= the whole pipeline (Render/Pipeline.v) ========================
+   timeline_docs r : the SVG and TikZ documents of TimelineSVG/TimelineTex(data,
+   options).export() computed from the RAW input r alone - times, widths, texts,
+   options, engine options, today - by Axis (parse_items, init_axis, scale, ticks,
+   tick texts) o Compose (get_nodes, the layout engine, stub chains) o Scene (the
+   two emitters).  Tied end to end by command 850 (family pipeline:* of this check).
+   pipeline_dom is Appendix B: non-empty data fitting the scale (years 1900..2200),
+   positive widths, non-negative paddings, engine options in range. *)
+From Coq Require Import Permutation.
+From Labella Require Import Layout.ForceState Layout.Force Layout.ForceProofs Render.Compose Render.ComposeProofs
+  Render.Pipeline Render.PipelineProofs.
+
+(* the export never raises on the documented domain (C11_total + the engine's domain) *)
+Theorem C07_pipeline_total : forall r, pipeline_dom r ->
+  exists s, pipeline_scene r = AOk s /\ timeline_docs r = AOk (svg_doc_of s, tikz_doc_of s).
+Proof. exact pipeline_total. Qed.
+Print Assumptions C07_pipeline_total.
+
+(* C07 with NO abstract hypothesis left.  For every input on which the pipeline
+   returns (by C07_pipeline_total: every documented input):
+   - there are exactly as many labels (hence, C07_counts, dots, links and boxes in
+     each document) as data, and the k-th belongs to datum ids[k] where ids is a
+     permutation of the data indices: one dot, one link, one box per datum;
+   - dot k lies on the axis line at ax_pos (the full instant / number of THAT datum),
+     in both documents;
+   - link k is C07_link for that label: starts at the dot, one continuous path
+     through the label's own stubs layer by layer, ends at the middle of the
+     axis-facing edge of its box (the thickness condition is discharged: explicit
+     widths);
+   - box k has that datum's size plus padding (swapped for left/right) and shows its
+     text verbatim;
+   - tick j is drawn at ax_pos of the j-th tick value with tickFormat of that value;
+   - ax_pos is ONE function: for a non-degenerate domain and a positive inner length
+     it is affine with positive slope, increasing, maps the reported domain onto
+     [0, inner length] and everything inside the domain into the axis.
+   (A degenerate domain puts every dot at 0: C11_degenerate.) *)
+Theorem C07_pipeline : forall r s,
+  pipeline_scene r = AOk s ->
+  exists ax ids,
+    axis (ri_axis r) = AOk ax /\
+    Permutation ids (seq 0 (length (ri_data r))) /\
+    length (sc_labels s) = length (ri_data r) /\
+    (forall k l, nth_error (sc_labels s) k = Some l ->
+       let d := o_dir (ri_opts r) in
+       exists id dat, nth_error ids k = Some id /\ nth_error (ri_data r) id = Some dat /\
+         let t := coord (parse (ri_today r) (rd_time dat)) in
+         (exists c, nth_error (pc_dots (geom_svg (svg_doc_of s))) k = Some c /\
+            nval (np_along d (pd_at c)) == ax_pos ax t /\ nval (np_cross d (pd_at c)) == 0) /\
+         (exists c, nth_error (pc_dots (geom_tikz (tikz_doc_of s))) k = Some c /\
+            nval (np_along d (pd_at c)) == ax_pos ax t /\ nval (np_cross d (pd_at c)) == 0) /\
+         ((exists rest, sc_path s l = M (start_pt d (l_ideal l)) :: rest /\
+             Forall (fun st => step_kind st <> KM) rest /\
+             Forall2 sig_eq rest (link_spec d (o_gap (ri_opts r)) (sc_H s) 0 (l_chain l))) /\
+          pt_eq (path_end (sc_path s l)) (edge_mid d (label_box_exact d (o_gap (ri_opts r)) (sc_H s) l)) /\
+          pt_within1 (path_end (sc_path s l)) (edge_mid d (label_box d (o_gap (ri_opts r)) (sc_H s) l)) /\
+          (exists col gs, nth_error (pc_links (geom_svg (svg_doc_of s))) k = Some (col, gs) /\
+             gs <> [] /\ segs_continuous (p8 (start_pt d (l_ideal l))) gs /\
+             map seg_end gs = map (fun x => p8 (step_end x)) (tl (sc_path s l)))) /\
+         (exists b, nth_error (pc_boxes (geom_svg (svg_doc_of s))) k = Some b /\
+            (pb_w b, pb_h b) = (let '(w, h) := node_size d (o_pad (ri_opts r)) (rd_width dat) (rd_text dat) in (Fs w, Fs h)) /\
+            match pb_text b with
+            | Some (_, t) => rd_text dat = Some t /\ t <> []
+            | None => text_shown (rd_text dat) = false
+            end)) /\
+    (o_ticks (ri_opts r) = true ->
+     forall j pv, nth_error (ax_tick_at ax) j = Some pv ->
+       let d := o_dir (ri_opts r) in
+       (exists ts pt, pc_ticks (geom_svg (svg_doc_of s)) = Some ts /\
+          nth_error ts j = Some (pt, tick_format ax pv) /\
+          nval (np_along d pt) == ax_pos ax (coord pv) /\ nval (np_cross d pt) == 0) /\
+       (exists ts pt, pc_ticks (geom_tikz (tikz_doc_of s)) = Some ts /\
+          nth_error ts j = Some (pt, tick_format ax pv) /\
+          nval (np_along d pt) = inject_Z (trunc (ax_pos ax (coord pv))) /\ nval (np_cross d pt) == 0)) /\
+    ax_len ax = axis_len (ri_opts r) /\
+    (coord (ax_d0 ax) < coord (ax_d1 ax) -> 0 < ax_len ax ->
+     (exists a b, 0 < a /\ (forall x, ax_pos ax x == a * x + b) /\
+        ax_pos ax (coord (ax_d0 ax)) == 0 /\ ax_pos ax (coord (ax_d1 ax)) == ax_len ax) /\
+     (forall x y, x < y -> ax_pos ax x < ax_pos ax y) /\
+     (forall x, coord (ax_d0 ax) <= x -> x <= coord (ax_d1 ax) -> 0 <= ax_pos ax x /\ ax_pos ax x <= ax_len ax)).
+Proof. exact pipeline_c07. Qed.
+Print Assumptions C07_pipeline.
+
+(* "through the datum's OWN stubs": the chain of the label of engine node nd is, layer
+   by layer, the position the engine reports for THE stub of that datum in that layer
+   (there is exactly one item of the datum there, and it is a stub), and finally the
+   reported position of the label itself in its own layer *)
+Theorem C07_pipeline_own_stubs : forall r s, pipeline_scene r = AOk s -> pipeline_dom r ->
+  exists ax, axis (ri_axis r) = AOk ax /\
+  let d := o_dir (ri_opts r) in
+  let p := o_pad (ri_opts r) in
+  let its := items_of (ax_dots ax) (ri_data r) in
+  let st := engine_result d p (ri_engine r) its in
+  sc_labels s = map (scene_label d p its (reported st)) (st_nodes st) /\
+  forall nd, In nd (st_nodes st) ->
+    let l := scene_label d p its (reported st) nd in
+    In (n_id nd, false, inject_Z (l_cur l)) (nth (n_layer nd) (reported st) []) /\
+    l_layer l = Z.of_nat (n_layer nd) /\
+    forall j, (j < n_layer nd)%nat ->
+      let c := inject_Z (nth j (l_chain l) 0%Z) in
+      In (n_id nd, true, c) (nth j (reported st) []) /\
+      forall b c', In (n_id nd, b, c') (nth j (reported st) []) -> b = true /\ c' = c.
+Proof. exact pipeline_chain_stubs. Qed.
+Print Assumptions C07_pipeline_own_stubs.
+
+(* C08 for the pipeline's boxes (no separation hypothesis: the engine's solver
+   provides it, C08_engine_disjoint): nodeSpacing >= 3, layerGap >= 1 *)
+Theorem C07_pipeline_boxes_disjoint : forall r s,
+  pipeline_scene r = AOk s -> pipeline_dom r ->
+  3 <= e_spacing (ri_engine r) -> 1 <= o_gap (ri_opts r) ->
+  forall pic, pic = geom_svg (svg_doc_of s) \/ pic = geom_tikz (tikz_doc_of s) ->
+  forall i j bi bj, nth_error (pc_boxes pic) i = Some bi -> nth_error (pc_boxes pic) j = Some bj -> i <> j ->
+    rect_disjoint (pbox_rect bi) (pbox_rect bj).
+Proof. exact pipeline_boxes_disjoint. Qed.
+Print Assumptions C07_pipeline_boxes_disjoint.
+
+(* non-vacuity: three numeric data (unsorted, one with a text), LinearScale, derived
+   domain, direction up, 200 x 100 with margins 20, default engine options.  The input
+   is in the documented domain, the pipeline returns, nice() turns [1.5, 9.25] into
+   [1, 10] and the dots sit at 160 * (t - 1) / 9. *)
+Definition ex_raw : raw_in :=
+  mkRawIn SLinear
+    [ mkRawDatum (TNum (37 # 4)) (20 # 1) (Some [97%N]) [];
+      mkRawDatum (TNum (3 # 2)) (21 # 1) None [];
+      mkRawDatum (TNum (11 # 2)) (22 # 1) None [] ]
+    None
+    (mkOpts Up (200 # 1) (100 # 1) (20 # 1) (20 # 1) (20 # 1) (20 # 1) (60 # 1)
+       (mkPad (2 # 1) (2 # 1) (3 # 1) (2 # 1)) (3 # 1) true false false
+       (CConst [35; 50; 50; 50]%N) (CConst [35; 50; 50; 50]%N) (CConst [35; 102; 102; 102]%N)
+       (CConst [35; 50; 50; 50]%N) (CConst [35; 48; 48; 48]%N))
+    default_eopts (2026, 10, 1)%Z.
+
+Example C07_ex_pipeline_dom : pipeline_dom ex_raw.
+Proof.
+  unfold pipeline_dom. split.
+  - split; [discriminate|]. cbn. split; [|exact I]. repeat constructor; eexists; reflexivity.
+  - split.
+    + intros d [<-|[<-|[<-|[]]]]; reflexivity.
+    + cbn. repeat split; try discriminate; reflexivity.
+Qed.
+
+Example C07_ex_pipeline :
+  match timeline_docs ex_raw with
+  | AOk (sv, tk) =>
+      (length (sv_dots sv), length (sv_links sv), length (sv_labels sv), length (tk_dots tk)) = (3, 3, 3, 3)%nat /\
+      map (fun c => match sdt_cx c with Some n => Qred (nval n) | None => 0 end) (sv_dots sv)
+        = [440 # 3; 80 # 9; 80 # 1] /\
+      match sv_ticks sv with
+      | Some ts => map stk_text ts = map (fun c => [c]) [49; 50; 51; 52; 53; 54; 55; 56; 57]%N ++ [[49; 48]%N]
+      | None => False
+      end
+  | _ => False
+  end.
+Proof. vm_compute. repeat split. Qed.
